@@ -696,6 +696,10 @@ func (tdsChan *Channel) tryParsePackage() bool {
 	}
 
 	tdsChan.packageCh <- pkg
-	tdsChan.lastPkgRx = pkg
+	// EEDPackages are messages and can arrive between a format and its
+	// rows or parameters - they are not part of the format context.
+	if _, ok := pkg.(*EEDPackage); !ok {
+		tdsChan.lastPkgRx = pkg
+	}
 	return true
 }
